@@ -65,14 +65,37 @@ fn run(case: &Value) -> Value {
         Some("conc") => conc(case),
         Some("seq") => seq(case),
         Some("nest") => nest(case),
+        Some("script") => script(case),
         _ => json!({"error": "unknown kind"}),
     }
 }
 
+/// What the console callback given to the compiler does besides recording the message.
+#[derive(Clone, Copy, Default)]
+struct ConsoleBehaviour {
+    /// time spent inside the callback (a slow logger): concurrent scans overlap inside it
+    sleep_us: u64,
+    /// the k-th call panics (once)
+    panic_at: Option<u64>,
+}
+
 fn compile(case: &Value, sink: &Sink) -> Result<Scanner, String> {
+    let b = ConsoleBehaviour { sleep_us: case["console_sleep_us"].as_u64().unwrap_or(0), panic_at: None };
+    compile_with(case, sink, b)
+}
+
+fn compile_with(case: &Value, sink: &Sink, b: ConsoleBehaviour) -> Result<Scanner, String> {
     let s2 = sink.clone();
+    let calls = Arc::new(std::sync::atomic::AtomicU64::new(0));
     let mut c = CompilerBuilder::new()
         .add_module(Console::with_callback(move |s| {
+            let n = calls.fetch_add(1, std::sync::atomic::Ordering::SeqCst) + 1;
+            if b.panic_at == Some(n) {
+                panic!("c13: console callback panic");
+            }
+            if b.sleep_us > 0 {
+                std::thread::sleep(std::time::Duration::from_micros(b.sleep_us));
+            }
             s2.lock().unwrap().push(format!("d|{s}"));
         }))
         .build();
@@ -683,6 +706,111 @@ fn nest(case: &Value) -> Value {
            "nested_outer": nested_outer, "after_outer": after_outer, "after_inner": after_inner})
 }
 
+// ------------------------------------------------------------------------------------------------ scripts
+fn params_with_timeout(p: &Value) -> ScanParams {
+    let sp = build_params(p);
+    match p["timeout_ms"].as_u64() {
+        Some(ms) => sp.timeout_duration(Some(std::time::Duration::from_millis(ms))),
+        None => sp,
+    }
+}
+
+/// One scan of a script: list API, callback API, or callback API aborting at the first event.
+fn script_scan(sc: &Scanner, input: &[u8], api: &str) -> Value {
+    match api {
+        "list" => full_scan(sc, input),
+        "callback" => {
+            let mut nothing = || Value::Null;
+            events_scan(sc, input, None, &mut nothing)
+        }
+        "abort" => match std::panic::catch_unwind(std::panic::AssertUnwindSafe(|| {
+            let mut events: Vec<Value> = Vec::new();
+            let res = sc.scan_mem_with_callback(input, |ev| {
+                events.push(event_json(&ev));
+                ScanCallbackResult::Abort
+            });
+            json!({"error": res.err().map(|e| error_name(&e)), "events": events})
+        })) {
+            Ok(v) => v,
+            Err(e) => json!({"panic": bvh::panic_message(&*e)}),
+        },
+        other => panic!("api {other}"),
+    }
+}
+
+/// {"kind":"script", "rules":[..], "inputs":[hex..], "console_panic_at":k?, "steps":[
+///    {"op":"scan","on":name,"input":i,"api":"list"|"callback"|"abort"} | {"op":"params","on":name,"params":{..,
+///    "timeout_ms":n?}} | {"op":"clone","from":name,"to":name} | {"op":"sleep","ms":n} ]}
+/// Scanner "s" is the compiled one.  refs: every scan step alone, on a scanner compiled for it and configured with
+/// the parameters its scanner has at that step, on a thread of its own, all of them BEFORE the script runs;
+/// got: the script, on one thread.
+fn script(case: &Value) -> Value {
+    let sink: Sink = Arc::new(Mutex::new(Vec::new()));
+    let inputs: Vec<Vec<u8>> = case["inputs"].as_array().expect("inputs").iter().map(seq_input).collect();
+    let steps = case["steps"].as_array().expect("steps");
+    // pass 1: which parameters does each scan run under
+    let mut cur: std::collections::HashMap<String, Value> = std::collections::HashMap::new();
+    cur.insert("s".into(), Value::Null);
+    let mut refs = Vec::new();
+    for st in steps {
+        match get_str(st, "op") {
+            "params" => {
+                cur.insert(get_str(st, "on").into(), st["params"].clone());
+            }
+            "clone" => {
+                let p = cur.get(get_str(st, "from")).cloned().unwrap_or(Value::Null);
+                cur.insert(get_str(st, "to").into(), p);
+            }
+            "scan" => {
+                let p = cur.get(get_str(st, "on")).cloned().unwrap_or(Value::Null);
+                let input = &inputs[get_usize(st, "input")];
+                let api = st["api"].as_str().unwrap_or("list");
+                let sink = &sink;
+                let r = std::thread::scope(|sc| {
+                    sc.spawn(move || match compile_with(case, sink, ConsoleBehaviour::default()) {
+                        Ok(mut f) => {
+                            if p.is_object() {
+                                f.set_scan_params(params_with_timeout(&p));
+                            }
+                            script_scan(&f, input, api)
+                        }
+                        Err(e) => json!({"compile_error": e}),
+                    })
+                    .join()
+                    .unwrap_or_else(|_| json!({"panic": "reference thread"}))
+                });
+                refs.push(r);
+            }
+            _ => (),
+        }
+    }
+    // pass 2: the script
+    let b = ConsoleBehaviour { sleep_us: 0, panic_at: case["console_panic_at"].as_u64() };
+    let main = match compile_with(case, &sink, b) {
+        Ok(s) => s,
+        Err(e) => return json!({"compile_error": e}),
+    };
+    let mut fam: std::collections::HashMap<String, Scanner> = std::collections::HashMap::new();
+    fam.insert("s".into(), main);
+    let mut got = Vec::new();
+    for st in steps {
+        match get_str(st, "op") {
+            "params" => fam.get_mut(get_str(st, "on")).expect("scanner").set_scan_params(params_with_timeout(&st["params"])),
+            "clone" => {
+                let c = fam.get(get_str(st, "from")).expect("scanner").clone();
+                fam.insert(get_str(st, "to").into(), c);
+            }
+            "sleep" => std::thread::sleep(std::time::Duration::from_millis(get_u64(st, "ms"))),
+            "scan" => {
+                let sc = fam.get(get_str(st, "on")).expect("scanner");
+                got.push(script_scan(sc, &inputs[get_usize(st, "input")], st["api"].as_str().unwrap_or("list")));
+            }
+            other => panic!("op {other}"),
+        }
+    }
+    json!({"refs": refs, "got": got})
+}
+
 fn conc(case: &Value) -> Value {
     let sink: Sink = Arc::new(Mutex::new(Vec::new()));
     let mut scanner = match compile(case, &sink) {
@@ -714,7 +842,7 @@ fn conc(case: &Value) -> Value {
     };
     // the oracle runs on a scanner of its own, compiled separately: what the threads do to the shared one
     // (and to its clones) cannot reach it; `again` is the shared scanner after the threads
-    let mut oracle_scanner = compile(case, &sink).expect("second compilation");
+    let mut oracle_scanner = compile_with(case, &sink, ConsoleBehaviour::default()).expect("second compilation");
     configure(&mut oracle_scanner, &case["base_params"], &case["base_symbols"]);
     let oracle = sequential(&oracle_scanner);
 
